@@ -39,6 +39,7 @@ INTERPS = ['splrep', 'pchip', 'mono_pchip']
 
 def check_extrema(ctx, x, pad, mode, parabolic, mag_pad_opts=None, tag='enum'):
     from emd import sift as S
+    xin, x = x, np.asarray(x, dtype=float)
     case = {'kind': 'extrema', 'x': x, 'pad_width': pad, 'mode': mode, 'parabolic': parabolic, 'mag_pad_opts': mag_pad_opts}
     n = len(x)
     rl, rm = R.detect_extrema(x, mode, parabolic)
@@ -47,7 +48,7 @@ def check_extrema(ctx, x, pad, mode, parabolic, mag_pad_opts=None, tag='enum'):
         kw['mag_pad_opts'] = dict(mag_pad_opts)
     try:
         PADMON.arm(n)
-        locs, mags = S.get_padded_extrema(x.copy(), pad_width=pad, mode=mode, parabolic_extrema=parabolic, **kw)
+        locs, mags = S.get_padded_extrema(xin if xin.base is not None else xin.copy(), pad_width=pad, mode=mode, parabolic_extrema=parabolic, **kw)
     except MonitorAbort as e:
         ctx.case(('e', x.tobytes(), pad, mode, parabolic), True)
         ctx.violation('padding-unbounded', 'get_padded_extrema did not finish padding within its logical step bound: %s' % e, case)
@@ -119,6 +120,13 @@ def check_extrema(ctx, x, pad, mode, parabolic, mag_pad_opts=None, tag='enum'):
                 ctx.violation('extrema-reflection', 'padded locations are not the odd reflection of the detected ones', case)
                 return
             ctx.count('manual_reflection_checked')
+    if parabolic and len(L) != len(locs):
+        # refined locations are floats: a mirrored extremum can land on 0 (or on n) to within rounding, and whether another
+        # padding round is needed is then decided by the last bit - a guard-band case, not a violation
+        allv = np.r_[np.asarray(L, float), locs]
+        if np.min(np.abs(allv)) < 1e-9 or np.min(np.abs(allv - n)) < 1e-9:
+            ctx.count('padding_round_decided_by_rounding')
+            return
     if len(L) != len(locs) or not np.allclose(L, locs, rtol=0, atol=1e-9) or not np.allclose(M, mags, rtol=0, atol=1e-9 * scale):
         ctx.violation('extrema-padding', 'padded extrema differ from the documented padding rule: got %s / %s, expected %s / %s'
                       % (np.round(locs, 3).tolist()[:10], np.round(mags, 3).tolist()[:10], np.round(L, 3).tolist()[:10], np.round(M, 3).tolist()[:10]), case)
@@ -130,6 +138,7 @@ def check_extrema(ctx, x, pad, mode, parabolic, mag_pad_opts=None, tag='enum'):
 
 def check_envelope(ctx, x, pad, mode, interp, parabolic):
     from emd import sift as S
+    xin, x = x, np.asarray(x, dtype=float)
     case = {'kind': 'envelope', 'x': x, 'pad_width': pad, 'mode': mode, 'interp_method': interp, 'parabolic': parabolic}
     n = len(x)
     rl, rm = R.detect_extrema(x, R.MODE_MAP[mode], parabolic)
@@ -138,7 +147,7 @@ def check_envelope(ctx, x, pad, mode, interp, parabolic):
     xo = {'pad_width': pad, 'parabolic_extrema': parabolic}
     try:
         PADMON.arm(n)
-        r = S.interp_envelope(x.copy(), mode=mode, interp_method=interp, extrema_opts=xo, ret_extrema=True)
+        r = S.interp_envelope(xin if xin.base is not None else xin.copy(), mode=mode, interp_method=interp, extrema_opts=xo, ret_extrema=True)
     except MonitorAbort as e:
         ctx.violation('padding-unbounded', 'interp_envelope did not finish padding within its logical step bound: %s' % e, case)
         return
@@ -233,10 +242,15 @@ def _run_shard(ctx):
         kind = gens.pick(rng, ['noise', 'int', 'int', 'walk', 'tones'])
         N = int(gens.pick(rng, [20, 50, 200, 1000]))
         x = gens.signal(rng, kind, N)
+        xp, xcanon, tag = gens.present(rng, x, dtypes=('int',), p_plain=.7)
+        x = xp          # (check_* compute their reference from the float64 values of whatever is passed)
+        ctx.count('presentation:' + tag)
         pad = int(rng.integers(0, 6))
         parabolic = bool(rng.random() < .5)
         mode = gens.pick(rng, MODES)
         mpo = {'mode': 'mean', 'stat_length': 2} if rng.random() < .2 else None
+        if np.asarray(x).dtype.kind == 'i':
+            mpo = None    # np.pad's 'mean' rounds on integer arrays: numpy's business, not the property's
         ctx.count('random_signals')
         check_extrema(ctx, x, pad, mode, parabolic, mpo, tag='rand')
         check_envelope(ctx, x, max(pad, 1), gens.pick(rng, ENVMODES), gens.pick(rng, INTERPS), parabolic)
